@@ -133,3 +133,36 @@ func (c *Ctx) checkRegisterArmBindsNothing(r *Report, rule string) {
 	r.Check(len(bad) == 0, rule, ssaFuncName(fn), "the REGISTER arm of an assignment binds no variable", c.Pos(fn.Pos()),
 		"an assignment whose left side is a register also makes a binding call ("+strings.Join(bad, ", ")+"): the body was rewritten to read the register, so the new variable is never read and the register keeps its old value (func f(n){ n := n + 1; n }; f(1) is 1 with registers, 2 without)")
 }
+
+// checkNoRegisterForRefusedNames: rule C05.R15.
+//
+// CreateOrSet refuses two kinds of names: constants that are bound (C19) and the names of extension functions.
+// A name that gets a register never reaches CreateOrSet, so the refusal would depend on the register mode:
+// every call of setupRegister / MakeRegister outside the wrapper is on the false edge of
+// object.IsExtraFunction(name) as well (C19.R4 checks the Constant(name) half).
+func (c *Ctx) checkNoRegisterForRefusedNames(r *Report, rule string) {
+	makeReg := c.Fn("object", "Environment.MakeRegister")
+	setup := c.Fn("eval", "setupRegister")
+	isExtra := c.Fn("object", "IsExtraFunction")
+	n := 0
+	for _, fn := range c.ModuleSSAFuncs() {
+		for _, call := range callsIn(fn, setup, makeReg) {
+			if fn.Object() == types.Object(setup) {
+				continue // the wrapper: its callers are checked
+			}
+			n++
+			nameArg := call.Common().Args[1]
+			ok := false
+			for _, cc := range controlling(call.Block()) {
+				if k, isCall := cc.Cond.(*ssa.Call); isCall && isCallTo(k, isExtra) && cc.Edge == 1 && sameExpr(k.Common().Args[0], nameArg) {
+					ok = true
+				}
+			}
+			r.Check(ok, rule, ssaFuncName(fn), "register bound to a name only if !IsExtraFunction(name)", c.Pos(call.Pos()),
+				"an integer parameter or loop variable named like an extension function becomes a register without the test CreateOrSet makes: func f(sin){1}; f(3) is 1 with registers and `attempt to change internal function sin` without")
+		}
+	}
+	if n < 2 {
+		r.Undecided("%s: only %d register set-ups found", rule, n)
+	}
+}
